@@ -115,6 +115,13 @@ class Ext:
         """
         return not self.__eq__(other)
 
+    def __hash__(self):
+        """
+        Provide a hash of this Ext object (equal objects hash alike), so that an
+        ext value can be a map key.
+        """
+        return hash((self.type, self.data))
+
     def __str__(self):
         """
         String representation of this Ext object.
